@@ -283,6 +283,7 @@ pub fn run(args: &Args, seed: u64, tier: &str, report: &Report) -> String {
         wild: true,
         focus: true,
         dfs_depth: if thorough { 3 } else { 2 },
+        three_men: thorough,
     };
     let per_pos = if thorough { 6 } else { 4 };
     run_shards(shards, 64, |shard| {
